@@ -1033,14 +1033,19 @@ pub fn run_check(tier_name: &str, seed: u64, verif_dir: &str) -> Outcome {
         println!("  violation in scenario {si}: {} {} [{}] lines: {:?}", v.class, v.detail.chars().take(160).collect::<String>(), sc.programs[v.program].label, interesting);
     }
     let mut replay_path = String::new();
-    if let Some((_, sc, v)) = violations.iter().min_by_key(|(i, _, _)| *i).cloned() {
+    // Candidates in scenario order; one that does not fail again in a fresh replay (code under
+    // test that behaves differently from run to run in a way no seam owns) is skipped in favour
+    // of the next — only when none reproduces is the run a harness error.
+    let mut cands: Vec<(usize, C12Scenario, Violation)> = violations.clone();
+    cands.sort_by_key(|(i, _, _)| *i);
+    let mut not_reproduced: Vec<String> = vec![];
+    for (si, sc, v) in cands.iter().take(8) {
         let mut budget = 400usize;
         let mut mrefs = RefCache::new();
-        let min = if v.class == "cross_process_differ" { sc.clone() } else { minimise(&sc, &v, &mut mrefs, &mut budget) };
-        let mut min = min;
-        let class = if v.class == "cross_process_differ" { v.class.clone() } else { final_class(&v.class, &min) };
+        let mut min = if v.class == "cross_process_differ" { sc.clone() } else { minimise(sc, v, &mut mrefs, &mut budget) };
+        let mut class = if v.class == "cross_process_differ" { v.class.clone() } else { final_class(&v.class, &min) };
         // replay in fresh processes
-        let rep = if v.class == "cross_process_differ" {
+        let mut rep = if v.class == "cross_process_differ" {
             let a = run_scenario(&canonical_scenario(&min.programs[0], 0)).jobs.pop().unwrap_or_default();
             let b = run_scenario(&min).jobs.pop().unwrap_or_default();
             compare(&a, &b).map(|(_, d)| d)
@@ -1048,6 +1053,13 @@ pub fn run_check(tier_name: &str, seed: u64, verif_dir: &str) -> Outcome {
             min.expect = Some(Expect { class: class.clone(), detail: String::new() });
             replay(&min)
         };
+        if rep.is_none() && v.class != "cross_process_differ" {
+            // the minimised form is flaky: fall back to the scenario as found
+            min = sc.clone();
+            class = v.class.clone();
+            min.expect = Some(Expect { class: class.clone(), detail: String::new() });
+            rep = replay(&min);
+        }
         match rep {
             Some(detail) => {
                 min.expect = Some(Expect { class: class.clone(), detail: format!("{} | differs from canonical in: {:?}", detail, dims(&min)) });
@@ -1059,12 +1071,17 @@ pub fn run_check(tier_name: &str, seed: u64, verif_dir: &str) -> Outcome {
                 println!("violation class={} {}", class, min.expect.as_ref().unwrap().detail);
                 println!("VIOLATION property=C12 replay={replay_path}");
                 exit = 1;
+                break;
             }
-            None => {
-                println!("HARNESS-ERROR nondeterministic-replay: minimised scenario of class {} did not reproduce", class);
-                return Outcome { exit: 2 };
-            }
+            None => not_reproduced.push(format!("scenario {si} (class {class}) did not reproduce in a fresh replay")),
         }
+    }
+    for n in &not_reproduced {
+        println!("note: nondeterministic-replay: {n}");
+    }
+    if exit != 1 && !cands.is_empty() {
+        println!("HARNESS-ERROR nondeterministic-replay: {} violating scenario(s), none failed again when replayed", cands.len());
+        return Outcome { exit: 2 };
     }
 
     // ---- evidence
